@@ -264,8 +264,12 @@ class Session:
             try:
                 self.writer.write(s)
                 res = "returned"
-            except Exception as e:  # noqa
+            except BaseException as e:  # noqa  (whatever the real code raises is an observation, not a harness crash)
                 res = type(e).__name__
+            if self._stopping:
+                # the call only came back because cleanup() set the writer's events: it never completed by itself
+                self.ev.append(("ret-forced", k, res))
+                return
             self.ev.append(("ret", k, res, self.readings()))
 
     def readings(self):
@@ -283,9 +287,10 @@ class Session:
         self.ev.append(("disc-call",))
         try:
             self.writer.disconnect(True)
-            self.ev.append(("disc-ret", None))
-        except Exception as e:  # noqa
-            self.ev.append(("disc-ret", type(e).__name__))
+            res = None
+        except BaseException as e:  # noqa
+            res = type(e).__name__
+        self.ev.append(("disc-forced" if self._stopping else "disc-ret", res))
 
     def printcore(self):
         if self.pc is None and self.delegate is not None and self.delegate._device is not None:
@@ -322,6 +327,35 @@ class Session:
             self.tcp.put(data)
         else:
             self.io().rxq.put(data)
+        return True
+
+    def read_timeout(self, default=0.25) -> float:
+        """the device object's read time-out (socket: the `select` time-out of `Device._readline_socket`)"""
+        try:
+            t = float(getattr(self.printcore().printer, "_timeout", default))
+            return t if 0.0 < t < 2.0 else default
+        except Exception:
+            return default
+
+    def release_split(self, cut: int, pause: float | None = None) -> bool:
+        """Release the next pending line in two TCP segments, `text[:cut]` and the rest (with the newline), with a
+        pause longer than the device's read time-out in between - a serial-to-wifi bridge, a firmware that prints a
+        line in pieces.  The line counts as delivered (`rel`) only with the segment that completes it.  On the
+        fake serial port (pyserial's readline assembles whole lines itself) this is a plain release."""
+        if self.lost or not self.pending:
+            return False
+        if self.kind != "socket" or len(self.pending[0][1]) < 2:
+            return self.release()
+        owner, text, terminal, errorish, kind = self.pending.pop(0)
+        data = (text + "\n").encode()
+        cut = max(1, min(int(cut), len(text) - 1))
+        if pause is None:
+            pause = 1.2 * self.read_timeout() + 0.03
+        self.ev.append(("seg", owner, text[:cut]))
+        self.tcp.put(data[:cut])
+        time.sleep(pause)
+        self.ev.append(("rel", owner, text, terminal, errorish, kind))
+        self.tcp.put(data[cut:])
         return True
 
     def permit(self) -> bool:
